@@ -138,6 +138,37 @@ def confirm(mod, case, f):
   return False
 
 
+def confirm_with_history(mod, tier, seed, case, f, k=16):
+  """A failure that does not reproduce alone may depend on process-global state
+  left by earlier cases (a module-level cache): replay the k cases that precede
+  it in the plan, in the same fresh worker, then the failing case."""
+  import collections as _c
+  target = json.dumps(_jsonable({x: v for x, v in case.items() if x != 'only'}),
+                      sort_keys=True)
+  prev = _c.deque(maxlen=k)
+  found = False
+  for c in mod.plan(tier, seed)['cases']:
+    if json.dumps(_jsonable(c), sort_keys=True) == target:
+      found = True
+      break
+    prev.append(c)
+  if not found or not prev:
+    return None
+  seq = [dict(c) for c in prev]
+  last = dict(case)
+  last['only'] = f.get('sub')
+  seq.append(last)
+  got = []
+  pool.run(mod.run_case, seq, lambda _c2, res: got.append(res), nworkers=2,
+           chunk=len(seq), init=getattr(mod, 'worker_init', None))
+  for res in got[-1:]:
+    if res and 'harness_error' not in res:
+      for g in res.get('fails', ()):
+        if g.get('kind') == f.get('kind') and not g.get('finding'):
+          return [_jsonable(c) for c in prev]
+  return None
+
+
 def write_evidence(prop, tier, seed, level, coverage, assumptions, wall,
                    violations):
   ev = {'property_id': prop, 'tier': tier, 'seed': int(seed), 'level': level,
@@ -185,13 +216,18 @@ def run_check(prop, tier, max_seconds=None):
   for case, f in agg.candidates:
     if len(violations) >= MAX_REPORTED:
       break
+    preceded_by = None
     if plan.get('confirm', True) and not confirm(mod, case, f):
-      unconfirmed.append((case, f))
-      continue
+      preceded_by = confirm_with_history(mod, tier, seed, case, f)
+      if preceded_by is None:
+        unconfirmed.append((case, f))
+        continue
+      f = dict(f, detail=str(f.get('detail')) + ' [only after the preceding '
+               'cases ran in the same process: depends on process-global state]')
     path = _replay_path(prop, case, f)
     with open(path, 'w') as fh:
       json.dump(_jsonable({'property': prop, 'case': case, 'sub': f.get('sub'),
-                           'failure': f,
+                           'failure': f, 'preceded_by': preceded_by,
                            'replay_cmd': f'./check {prop} --replay {path}'}),
                 fh, indent=1, sort_keys=True)
     violations.append((path, f))
@@ -255,6 +291,8 @@ def run_replay(prop, path):
   rec = json.load(open(path))
   case = rec['case']
   case['only'] = rec.get('sub')
+  for c in rec.get('preceded_by') or []:
+    mod.run_case(c, lambda k: None, frozenset())   # rebuild the process state
   res = mod.run_case(case, lambda k: None, frozenset())
   bad = [f for f in res.get('fails', ()) if not f.get('finding')]
   for f in res.get('fails', ()):
